@@ -1,4 +1,5 @@
 pub mod c01;
+pub mod c05;
 pub mod c06;
 pub mod c07;
 pub mod c08;
@@ -11,6 +12,7 @@ use crate::runner::Property;
 pub fn by_id(id: &str) -> Option<Property> {
     Some(match id {
         "C01" => c01::property(),
+        "C05" => c05::property(),
         "C06" => c06::property(),
         "C07" => c07::property(),
         "C08" => c08::property(),
@@ -22,4 +24,4 @@ pub fn by_id(id: &str) -> Option<Property> {
         _ => return None,
     })
 }
-pub const ALL: &[&str] = &["C01", "C06", "C07", "C08", "C09", "C10", "C11", "C16", "C17"];
+pub const ALL: &[&str] = &["C01", "C05", "C06", "C07", "C08", "C09", "C10", "C11", "C16", "C17"];
